@@ -131,6 +131,10 @@ def run_single(csvpath_text, method="collect", n=None, *, policy=None, delimiter
             lines = p.collect(nexts=n)
         elif method == "next":
             lines = [l[:] for l in p.next()]
+        elif method == "nextkeep":
+            # a caller that keeps the yielded lists themselves until the run is over (`list(path.next())`)
+            kept = list(p.next())
+            lines = [l[:] for l in kept]
         elif method == "ff":
             p.fast_forward()
             lines = []
